@@ -8,6 +8,7 @@ def text_edit(old, new):
         return src.replace(old, new, 1) if old in src else None
     return edit
 MUTANTS = [
+    Mutant('next_without_default', 'src/pharmpy/workflows/model_database/local_directory.py', text_edit("hpath = next(h_dir.iterdir(), None) if h_dir.is_dir() else None", "hpath = next(h_dir.iterdir()) if h_dir.is_dir() else None"), 'K3', 'empty index directory crashes later stores'),
     Mutant('annotations_shared_file', 'src/pharmpy/workflows/contexts/local_directory.py', text_edit("        return self.path / 'annotations'", "        return self._top_path / 'annotations'"), 'K9', 'annotations shared by all contexts'),
     Mutant('commit_in_finally', D, edit_node('LocalModelDirectoryDatabase.transaction', stmt_containing('yield LocalModelDirectoryDatabaseTransaction'),
            lambda seg: 'try:\n                ' + seg + '\n            finally:\n                path.unlink()'), 'K1', 'marker removed although body raised'),
